@@ -14,6 +14,7 @@ use std::io::{BufRead, Write};
 use std::time::{Duration, Instant, SystemTime, UNIX_EPOCH};
 
 mod subj;
+mod sched;
 
 #[derive(Clone, Debug, PartialEq)]
 pub struct V {
